@@ -1,5 +1,6 @@
 import Driver.Util
 import NutsModel.C13.Subject
+import NutsModel.C13.RequestNow
 import NutsModel.Facts.C13
 open Lean Nuts.Drv Nuts.C13 Nuts
 
@@ -20,6 +21,8 @@ structure St where
   vmLbl : Array Nat := #[]
   subjects : List String := []
   svcs : List String := []
+  /-- `SqlManager.PreferredOrder` -/
+  pref : List String := ["nuts", "web"]
 
 def parseMethod (s : String) : Option Method :=
   match s with
@@ -59,7 +62,9 @@ def observe (st : St) (result : String) : St × String := Id.run do
     if rows.isEmpty then
       out := out ++ " err:nosubject"
       continue
-    let rows := (rows.filter (·.method == .nuts)) ++ (rows.filter (·.method == .web))
+    -- `ListDIDs`: `sortDIDsByMethod(result, r.PreferredOrder)`
+    let sorted := sortDIDsByMethod Now.absent st.pref (rows.map didIdOf)
+    let rows := sorted.filterMap (fun d => rows.find? (fun r => didIdOf r == d))
     for r in rows do
       let vs := (r.vers.map (·.n)).reverse.map toString
       let mut top := "-"
@@ -111,6 +116,16 @@ def parseOp (j : Json) : Option Op :=
   | "deact" => some (.deactivate s)
   | _ => none
 
+def parseOpt (s : String) : CreateOpt :=
+  if s == "enc" then .encryptionKey
+  else if s == "legacy" then .nutsLegacy
+  else if s.startsWith "s:" then .subject (s.drop 2).toString
+  else .unknown
+
+/-- "" = the default of the harness (nuts, web); "-" = the empty list -/
+def parsePref (s : String) : List String :=
+  if s == "" then ["nuts", "web"] else if s == "-" then [] else s.splitOn ","
+
 def parseFault (j : Json) : Fault :=
   match jStr j "fault" with
   | "sweepat" => .none   -- a sweep during the (young) in-flight operation: a no-op (`sweep_ignores_young_records`)
@@ -125,7 +140,7 @@ def step (st : St) (j : Json) : St × List String :=
   match jStr j "op" with
   | "cfg" =>
     let ms := (jStrs j "methods").filterMap parseMethod
-    let st : St := { cfg := cfgOf ms, w := { now := 100000 } }
+    let st : St := { cfg := cfgOf ms, w := { now := 100000 }, pref := parsePref (jStr j "pref") }
     let (st, o) := observe st "cfg"
     (st, [o])
   | "tick" =>
@@ -147,6 +162,23 @@ def step (st : St) (j : Json) : St × List String :=
     let (st, o) := observe { st with w := w } r
     (st, [o])
   | "do" =>
+    let seen := (jStrs j "order").filterMap parseMethod
+    -- Go visits every key of the map: the methods not reached before the loop ended come after the observed ones
+    let order := seen ++ st.cfg.methods.filter (fun m => !seen.contains m)
+    let reg (st : St) : St := { st with subjects := insertSet st.subjects (jStr j "subj") }
+    if jStr j "kind" == "createopt" then
+      -- `Create` with an option list; `u` stands for the fresh names (uuid / did:nuts DID) the call comes up with
+      let u := jStr j "u"
+      let (w, r) := createRequest Now.cls Now.createRefusesWeb st.cfg st.w ((jStrs j "opts").map parseOpt) u u
+        st.cfg.methods order (parseFault j)
+      let (st, o) := observe (reg { st with w := w }) r
+      (st, [o])
+    else if jStr j "kind" == "addkeyka" then
+      -- `AddVerificationMethod` with a key-usage that includes key agreement
+      let (w, r) := addKeyRequest Now.addKeyRefusesWeb st.cfg st.w (jStr j "subj") true order (parseFault j)
+      let (st, o) := observe (reg { st with w := w }) r
+      (st, [o])
+    else
     match parseOp j with
     | none => (st, ["bad-op:kind"])
     | some op =>
